@@ -9,6 +9,7 @@ static void init(void)
 	nkeys_used = (int)vp_param("keys", 4, 4);
 	seeds_on = (int)vp_param("seeded_starts", 1, 1);
 	level_choices = (int)vp_param("skiplist_level_choices", 0, 0);
+	prefix_second_iter = (int)vp_param("prefix_second_iter", 0, 0);
 	vp_count_name(0, "executions_cut_at_known_finding_trigger");
 }
 int main(int argc, char **argv)
